@@ -73,6 +73,9 @@ theories/Model/Lifecycle.vos theories/Model/Lifecycle.vok theories/Model/Lifecyc
 theories/Model/ClientFail.vo theories/Model/ClientFail.glob theories/Model/ClientFail.v.beautified theories/Model/ClientFail.required_vo: theories/Model/ClientFail.v theories/Base/Word.vo
 theories/Model/ClientFail.vio: theories/Model/ClientFail.v theories/Base/Word.vio
 theories/Model/ClientFail.vos theories/Model/ClientFail.vok theories/Model/ClientFail.required_vos: theories/Model/ClientFail.v theories/Base/Word.vos
+theories/Model/WriterSM.vo theories/Model/WriterSM.glob theories/Model/WriterSM.v.beautified theories/Model/WriterSM.required_vo: theories/Model/WriterSM.v theories/Model/Message.vo
+theories/Model/WriterSM.vio: theories/Model/WriterSM.v theories/Model/Message.vio
+theories/Model/WriterSM.vos theories/Model/WriterSM.vok theories/Model/WriterSM.required_vos: theories/Model/WriterSM.v theories/Model/Message.vos
 theories/Proofs/HeaderProofs.vo theories/Proofs/HeaderProofs.glob theories/Proofs/HeaderProofs.v.beautified theories/Proofs/HeaderProofs.required_vo: theories/Proofs/HeaderProofs.v theories/Model/Header.vo
 theories/Proofs/HeaderProofs.vio: theories/Proofs/HeaderProofs.v theories/Model/Header.vio
 theories/Proofs/HeaderProofs.vos theories/Proofs/HeaderProofs.vok theories/Proofs/HeaderProofs.required_vos: theories/Proofs/HeaderProofs.v theories/Model/Header.vos
@@ -136,9 +139,9 @@ theories/Props/C09.vos theories/Props/C09.vok theories/Props/C09.required_vos: t
 theories/Proofs/BeveProofs.vo theories/Proofs/BeveProofs.glob theories/Proofs/BeveProofs.v.beautified theories/Proofs/BeveProofs.required_vo: theories/Proofs/BeveProofs.v theories/Model/Beve.vo theories/Proofs/HeaderProofs.vo theories/Proofs/MessageProofs.vo
 theories/Proofs/BeveProofs.vio: theories/Proofs/BeveProofs.v theories/Model/Beve.vio theories/Proofs/HeaderProofs.vio theories/Proofs/MessageProofs.vio
 theories/Proofs/BeveProofs.vos theories/Proofs/BeveProofs.vok theories/Proofs/BeveProofs.required_vos: theories/Proofs/BeveProofs.v theories/Model/Beve.vos theories/Proofs/HeaderProofs.vos theories/Proofs/MessageProofs.vos
-theories/Props/C08.vo theories/Props/C08.glob theories/Props/C08.v.beautified theories/Props/C08.required_vo: theories/Props/C08.v theories/Model/Beve.vo theories/Proofs/BeveProofs.vo
-theories/Props/C08.vio: theories/Props/C08.v theories/Model/Beve.vio theories/Proofs/BeveProofs.vio
-theories/Props/C08.vos theories/Props/C08.vok theories/Props/C08.required_vos: theories/Props/C08.v theories/Model/Beve.vos theories/Proofs/BeveProofs.vos
+theories/Props/C08.vo theories/Props/C08.glob theories/Props/C08.v.beautified theories/Props/C08.required_vo: theories/Props/C08.v theories/Model/Beve.vo theories/Proofs/MessageProofs.vo theories/Proofs/BeveProofs.vo
+theories/Props/C08.vio: theories/Props/C08.v theories/Model/Beve.vio theories/Proofs/MessageProofs.vio theories/Proofs/BeveProofs.vio
+theories/Props/C08.vos theories/Props/C08.vok theories/Props/C08.required_vos: theories/Props/C08.v theories/Model/Beve.vos theories/Proofs/MessageProofs.vos theories/Proofs/BeveProofs.vos
 theories/Proofs/JsonPtrProofs.vo theories/Proofs/JsonPtrProofs.glob theories/Proofs/JsonPtrProofs.v.beautified theories/Proofs/JsonPtrProofs.required_vo: theories/Proofs/JsonPtrProofs.v theories/Model/JsonPtr.vo
 theories/Proofs/JsonPtrProofs.vio: theories/Proofs/JsonPtrProofs.v theories/Model/JsonPtr.vio
 theories/Proofs/JsonPtrProofs.vos theories/Proofs/JsonPtrProofs.vok theories/Proofs/JsonPtrProofs.required_vos: theories/Proofs/JsonPtrProofs.v theories/Model/JsonPtr.vos
@@ -169,6 +172,9 @@ theories/Props/C16.vos theories/Props/C16.vok theories/Props/C16.required_vos: t
 theories/Proofs/RouteProofs.vo theories/Proofs/RouteProofs.glob theories/Proofs/RouteProofs.v.beautified theories/Proofs/RouteProofs.required_vo: theories/Proofs/RouteProofs.v theories/Model/Route.vo
 theories/Proofs/RouteProofs.vio: theories/Proofs/RouteProofs.v theories/Model/Route.vio
 theories/Proofs/RouteProofs.vos theories/Proofs/RouteProofs.vok theories/Proofs/RouteProofs.required_vos: theories/Proofs/RouteProofs.v theories/Model/Route.vos
+theories/Props/C03.vo theories/Props/C03.glob theories/Props/C03.v.beautified theories/Props/C03.required_vo: theories/Props/C03.v theories/Model/Route.vo theories/Proofs/RouteProofs.vo
+theories/Props/C03.vio: theories/Props/C03.v theories/Model/Route.vio theories/Proofs/RouteProofs.vio
+theories/Props/C03.vos theories/Props/C03.vok theories/Props/C03.required_vos: theories/Props/C03.v theories/Model/Route.vos theories/Proofs/RouteProofs.vos
 theories/Proofs/JsonProofs.vo theories/Proofs/JsonProofs.glob theories/Proofs/JsonProofs.v.beautified theories/Proofs/JsonProofs.required_vo: theories/Proofs/JsonProofs.v theories/Model/Json.vo
 theories/Proofs/JsonProofs.vio: theories/Proofs/JsonProofs.v theories/Model/Json.vio
 theories/Proofs/JsonProofs.vos theories/Proofs/JsonProofs.vok theories/Proofs/JsonProofs.required_vos: theories/Proofs/JsonProofs.v theories/Model/Json.vos
@@ -187,3 +193,18 @@ theories/Proofs/RegistryConc.vos theories/Proofs/RegistryConc.vok theories/Proof
 theories/Props/C14.vo theories/Props/C14.glob theories/Props/C14.v.beautified theories/Props/C14.required_vo: theories/Props/C14.v theories/Model/Json.vo theories/Model/Registry.vo theories/Proofs/JsonProofs.vo theories/Proofs/PointerProofs.vo theories/Proofs/RegistryProofs.vo theories/Proofs/RegistryLaws.vo theories/Proofs/RegistryConc.vo
 theories/Props/C14.vio: theories/Props/C14.v theories/Model/Json.vio theories/Model/Registry.vio theories/Proofs/JsonProofs.vio theories/Proofs/PointerProofs.vio theories/Proofs/RegistryProofs.vio theories/Proofs/RegistryLaws.vio theories/Proofs/RegistryConc.vio
 theories/Props/C14.vos theories/Props/C14.vok theories/Props/C14.required_vos: theories/Props/C14.v theories/Model/Json.vos theories/Model/Registry.vos theories/Proofs/JsonProofs.vos theories/Proofs/PointerProofs.vos theories/Proofs/RegistryProofs.vos theories/Proofs/RegistryLaws.vos theories/Proofs/RegistryConc.vos
+theories/Proofs/LifecycleProofs.vo theories/Proofs/LifecycleProofs.glob theories/Proofs/LifecycleProofs.v.beautified theories/Proofs/LifecycleProofs.required_vo: theories/Proofs/LifecycleProofs.v theories/Model/Lifecycle.vo theories/Proofs/PeersProofs.vo
+theories/Proofs/LifecycleProofs.vio: theories/Proofs/LifecycleProofs.v theories/Model/Lifecycle.vio theories/Proofs/PeersProofs.vio
+theories/Proofs/LifecycleProofs.vos theories/Proofs/LifecycleProofs.vok theories/Proofs/LifecycleProofs.required_vos: theories/Proofs/LifecycleProofs.v theories/Model/Lifecycle.vos theories/Proofs/PeersProofs.vos
+theories/Props/C15.vo theories/Props/C15.glob theories/Props/C15.v.beautified theories/Props/C15.required_vo: theories/Props/C15.v theories/Model/Lifecycle.vo theories/Proofs/PeersProofs.vo theories/Proofs/LifecycleProofs.vo
+theories/Props/C15.vio: theories/Props/C15.v theories/Model/Lifecycle.vio theories/Proofs/PeersProofs.vio theories/Proofs/LifecycleProofs.vio
+theories/Props/C15.vos theories/Props/C15.vok theories/Props/C15.required_vos: theories/Props/C15.v theories/Model/Lifecycle.vos theories/Proofs/PeersProofs.vos theories/Proofs/LifecycleProofs.vos
+theories/Proofs/ClientFailProofs.vo theories/Proofs/ClientFailProofs.glob theories/Proofs/ClientFailProofs.v.beautified theories/Proofs/ClientFailProofs.required_vo: theories/Proofs/ClientFailProofs.v theories/Model/ClientFail.vo
+theories/Proofs/ClientFailProofs.vio: theories/Proofs/ClientFailProofs.v theories/Model/ClientFail.vio
+theories/Proofs/ClientFailProofs.vos theories/Proofs/ClientFailProofs.vok theories/Proofs/ClientFailProofs.required_vos: theories/Proofs/ClientFailProofs.v theories/Model/ClientFail.vos
+theories/Proofs/WriterSMProofs.vo theories/Proofs/WriterSMProofs.glob theories/Proofs/WriterSMProofs.v.beautified theories/Proofs/WriterSMProofs.required_vo: theories/Proofs/WriterSMProofs.v theories/Model/WriterSM.vo theories/Proofs/HeaderProofs.vo theories/Proofs/MessageProofs.vo
+theories/Proofs/WriterSMProofs.vio: theories/Proofs/WriterSMProofs.v theories/Model/WriterSM.vio theories/Proofs/HeaderProofs.vio theories/Proofs/MessageProofs.vio
+theories/Proofs/WriterSMProofs.vos theories/Proofs/WriterSMProofs.vok theories/Proofs/WriterSMProofs.required_vos: theories/Proofs/WriterSMProofs.v theories/Model/WriterSM.vos theories/Proofs/HeaderProofs.vos theories/Proofs/MessageProofs.vos
+theories/Props/C05.vo theories/Props/C05.glob theories/Props/C05.v.beautified theories/Props/C05.required_vo: theories/Props/C05.v theories/Model/WriterSM.vo theories/Proofs/HeaderProofs.vo theories/Proofs/MessageProofs.vo theories/Proofs/WriterSMProofs.vo
+theories/Props/C05.vio: theories/Props/C05.v theories/Model/WriterSM.vio theories/Proofs/HeaderProofs.vio theories/Proofs/MessageProofs.vio theories/Proofs/WriterSMProofs.vio
+theories/Props/C05.vos theories/Props/C05.vok theories/Props/C05.required_vos: theories/Props/C05.v theories/Model/WriterSM.vos theories/Proofs/HeaderProofs.vos theories/Proofs/MessageProofs.vos theories/Proofs/WriterSMProofs.vos
